@@ -2,7 +2,7 @@
 # usage: tools-validate-seed.sh /tmp/seed/<k>/out/<name>   -> validates against /repo HEAD in a scratch worktree, copies to /verif/seeded/<name>/
 export GOFLAGS=-mod=mod GOPROXY=off
 d="$1"; name=$(basename "$d")
-wt=/tmp/sv/wt
+wt=${WT:-/tmp/sv/wt}
 mkdir -p /tmp/sv
 if [ ! -d $wt ]; then git -C /repo worktree add --detach $wt HEAD >/dev/null 2>&1; fi
 git -C $wt checkout -q --detach main; git -C $wt checkout -q -- . ; git -C $wt clean -fdq
